@@ -68,7 +68,7 @@ pub fn parse_length_range(
 
 /// Parse alphanumeric string (letters and digits only)
 pub fn parse_alphanumeric(input: &str, field_name: &str) -> Result<String, ParseError> {
-    if !input.chars().all(|c| c.is_alphanumeric()) {
+    if !input.chars().all(|c| c.is_ascii_alphanumeric()) {
         return Err(ParseError::InvalidFormat {
             message: format!("{} must contain only letters and digits", field_name),
         });
@@ -78,7 +78,10 @@ pub fn parse_alphanumeric(input: &str, field_name: &str) -> Result<String, Parse
 
 /// Parse uppercase letters only
 pub fn parse_uppercase(input: &str, field_name: &str) -> Result<String, ParseError> {
-    if !input.chars().all(|c| c.is_uppercase() || c.is_whitespace()) {
+    if !input
+        .chars()
+        .all(|c| c.is_ascii_uppercase() || c.is_ascii_whitespace())
+    {
         return Err(ParseError::InvalidFormat {
             message: format!("{} must contain only uppercase letters", field_name),
         });
@@ -88,7 +91,7 @@ pub fn parse_uppercase(input: &str, field_name: &str) -> Result<String, ParseErr
 
 /// Parse numeric string (digits only)
 pub fn parse_numeric(input: &str, field_name: &str) -> Result<String, ParseError> {
-    if !input.chars().all(|c| c.is_numeric()) {
+    if !input.chars().all(|c| c.is_ascii_digit()) {
         return Err(ParseError::InvalidFormat {
             message: format!("{} must contain only digits", field_name),
         });
@@ -117,7 +120,7 @@ pub fn parse_swift_chars(input: &str, field_name: &str) -> Result<String, ParseE
 
     if !input
         .chars()
-        .all(|c| c.is_alphanumeric() || SWIFT_SPECIAL.contains(c))
+        .all(|c| c.is_ascii_alphanumeric() || SWIFT_SPECIAL.contains(c))
     {
         return Err(ParseError::InvalidFormat {
             message: format!(
